@@ -1,5 +1,6 @@
 """C01 internal verification: policy shape (certificate), verdict tables of the internal rules,
 engine semantics (shared with C05), algorithm life-cycle table."""
+from ksirules.model import AnalysisBroken
 from ksirules.policy import PFX
 from reference import certificates as CERT
 from . import policy_common as PC
@@ -8,6 +9,11 @@ TITLE = "internal policy accepts only consistent signatures"
 
 
 def run(prog, chk):
+    algorithm_id_narrowing(prog, chk)
+    _run(prog, chk)
+
+
+def _run(prog, chk):
     chk.explanation = (
         "R5/R7: the rule tables of policy.c are read from their evaluated initialisers; every evaluation path of the INTERNAL "
         "policy under the engine semantics decided by C05 is enumerated (each basic rule ranging over OK / inconclusive; FAIL and "
@@ -37,3 +43,43 @@ def run(prog, chk):
     PC.check_ok_after_failure(prog, chk, "C01.okgate", T.basic_rules(root))
     chk.rule("C01.metadata", "INT-11: metadata padding / imprint ambiguity scenario table", floor=15)
     PC.check_metadata(prog, chk, "C01.metadata")
+
+
+def algorithm_id_narrowing(prog, chk):
+    """Hash algorithm ids are parsed as 64-bit integers; where such a value is narrowed to KSI_HashAlgorithm / int and used to select a
+    hash function, the narrowing must be dominated by the library's own range idiom (value <= 0xff), otherwise 2^32 + id is taken for id."""
+    from ksirules.flow import g_cmp, must_pass, path_lines
+    from ksirules.model import is_int, show, strip, walk
+    chk.rule("C01.algid", "a parsed 64-bit algorithm id is range-checked before it is narrowed and used to select a hash function", floor=3)
+    INFORMATIVE = {"KSI_checkHashAlgorithmAt": "deprecation lookup only: an unknown id is 'do nothing', the hash itself is computed elsewhere",
+                   "KSI_getHashAlgorithmName": "log text only"}
+    n = 0
+    for fn in sorted(prog.all_functions(), key=lambda f: (f.unit, f.line)):
+        for b, i, node in fn.nodes():
+            if not (node.get("k") == "cast" and node.get("fw") == 64 and node.get("w", 64) < 64):
+                continue
+            txt = show(fn.deep(node["e"]), fn).replace(" ", "")
+            if not txt.startswith("KSI_Integer_getUInt64("):
+                continue
+            n += 1
+            # the call this value is an argument of (if any)
+            user = None
+            for b2, i2, c in fn.calls():
+                if (b2, i2) == (b, i) or b2 == b:
+                    for a in c["a"]:
+                        if any(x is node for x in walk(fn.deep(a))) or show(fn.deep(a), fn).replace(" ", "").endswith(txt):
+                            user = c.get("fn")
+            inst = "%s:%s" % (fn.name, txt[len("KSI_Integer_getUInt64("):-1])
+            if user in INFORMATIVE:
+                chk.ob("C01.algid", inst + "@" + user, True, "narrowed value goes to %s (%s)" % (user, INFORMATIVE[user]), loc=fn.loc(fn.elem_line(b, i)), fn=fn,
+                       nontrivial=False)
+                continue
+            g = g_cmp({"<=", "<"}, lambda f, x, txt=txt: show(f.deep(x), f).replace(" ", "") == txt, lambda f, x: is_int(x) and strip(x)["v"] in (0xff, 0x100),
+                      "id<=0xff")
+            w = must_pass(fn, {b}, g)
+            chk.ob("C01.algid", inst, w is None,
+                   "%s is narrowed to %s%s only after the exiting check %s <= 0xff" % (txt, node["t"], " for " + user if user else "", txt) if w is None else
+                   "%s is narrowed to %s%s without a range check: an id of 2^32 + k selects algorithm k" % (txt, node["t"], " for " + user if user else ""),
+                   loc=fn.loc(fn.elem_line(b, i)), fn=fn, path=None if w is None else path_lines(fn, w))
+    if n < 5:
+        raise AnalysisBroken("only %d narrowing conversions of parsed 64-bit integers found" % n)
